@@ -55,16 +55,32 @@ def trio(G, o, where, r, labels, check_bodies=True):
     return ev.ok
 
 
+def with_toggles(spec, case):
+    """A build on which disable_effects() was called for the datasets the case names (long-lived objects are
+    reconfigured after definition)."""
+    G = build(spec)
+    off = set()
+    for i in case.get("effects_off", []):
+        d = spec["defs"][i % len(spec["defs"])]
+        if d.get("effects"):
+            G.ds[d["name"]].disable_effects()
+            off.add(d["name"])
+    return G, off
+
+
 def check_total(case, ctx):
     spec = specgen.normalise(case["spec"], ctx.flags, ctx)
-    ref = Ref(spec)
+    _, off = with_toggles(spec, case)
+    ref = Ref(spec, effects_disabled=off)
     labels = set()
+    if off:
+        labels.add("disable_effects()")
     seen = set()
     for o in case["options"]:
         r = ref.run(o)
-        seen.add(trio(build(spec), o, f"cold options={o}", r, labels))
+        seen.add(trio(with_toggles(spec, case)[0], o, f"cold options={o} effects disabled on {sorted(off)}", r, labels))
     # warm: long-lived build, prefix history, then the trio on each dictionary again
-    G = build(spec)
+    G, _ = with_toggles(spec, case)
     for o in case["prefix"]:
         run(G.root.evaluate, o)
     warm_hit = False
@@ -111,7 +127,7 @@ def cases(draw, prof):
         o, _ = draw(U.edit_dict(opts[-1]))
         opts.append(o)
     prefix = draw(U.histories(min_len=2, max_len=5, p_present=p))
-    return {"spec": spec, "options": opts, "prefix": prefix}
+    return {"spec": spec, "options": opts, "prefix": prefix, "effects_off": draw(st.lists(st.integers(0, 5), max_size=2))}
 
 
 TOTAL = specgen.profile(domain_rate=0.0, total_preds=True, domain_always_true=0.15)
